@@ -14,14 +14,14 @@ TABLE = {
         technique="property-based testing (Hypothesis) + bounded exhaustive enumeration; oracle = two-directional partition predicate",
         text="Generated-input search: every best alignment returned for generated continua (2-5 annotators, empty annotators, "
              "coinciding/nested/identical/unlabelled units, every built-in dissimilarity, CBC and GLPK back-ends) is checked "
-             "against an independent multiset partition predicate; a small grid is enumerated exhaustively. Exploration, not proof.",
+             "against an independent multiset partition predicate; a small grid is enumerated exhaustively; histories re-align the same objects after in-place edits. Exploration, not proof.",
         note="Trusts the check's own model of the continuum (set of (annotator,start,end,label)) and the solver spy; GLPK reached by masking `import cylp`.",
         ref="5/C01"),
     "C02": dict(
         technique="property-based testing with an independent exact optimum oracle (bitmask DP / assignment / HiGHS MILP over unpruned candidates)",
         text="The library's best-alignment disorder is compared two-sidedly with an independent optimum over the UNPRUNED candidate set "
              "(float64 reference formulas; DP for tiny, Hungarian for 2 annotators, HiGHS upper+dual bound otherwise), on generated continua "
-             "and an exhaustive grid, both back-ends.",
+             "and an exhaustive grid, both back-ends; dense 3x14 continua, in-place edit histories on the same objects and extreme delta_empty scales (1e-8..1e4) are included.",
         note="Trusts scipy (HiGHS, linear_sum_assignment) and the reference formulas written from the property statement; tolerance 2e-5 relative on float32-exact inputs.",
         ref="5/C02"),
     "C03": dict(
@@ -34,13 +34,15 @@ TABLE = {
         technique="property-based testing; differential (compiled form vs unit form vs documented formula) + metamorphic (label order, category-set embedding, proportionality)",
         text="For generated unit pairs and every dissimilarity class/parameterisation (1..300 categories, shuffled label order, components with "
              "different delta_empty) the compiled value, the unit-to-unit value and the documented formula are compared; symmetry, zero on identity, "
-             "name-only dependence and ordinal proportionality are checked.",
+             "name-only dependence and ordinal proportionality are checked; sequences of objects (same labels, other order/positions; default components with other delta_empty) and a continuum "
+             "whose categories grow in place are included.",
         note="Compiled form observed through a 2-annotator unitary alignment's disorder (public API). Levenshtein: both /max(len) and /(max(len)+1) accepted.",
         ref="5/C04"),
     "C05": dict(
         technique="property-based testing; recording sampler (public subclass API) + recomputation oracle for N_required, mean and gamma",
         text="compute_gamma is run on generated small continua with generated n_samples/precision/sampler/ground-truth/mode; a recording sampler logs "
-             "every draw; the number of draws, freshness/validity of samples, optimality of chance alignments, expected disorder and gamma are recomputed independently.",
+             "every draw; the number of draws, freshness/validity/kind of samples (both batches), optimality of chance alignments, expected disorder and gamma are recomputed independently; "
+             "histories (earlier computation with the same sampler, in-place edit) and extreme delta_empty scales are included.",
         note="Population and sample standard deviation both accepted for CV; 'low' accepted as 0.1 or 0.05; exact optimum oracle from C02.",
         ref="5/C05"),
     "C06": dict(
@@ -52,7 +54,8 @@ TABLE = {
     "C07": dict(
         technique="property-based testing with constructed candidate counts; oracle = vectorised float64 enumeration of all index tuples",
         text="Candidate sets returned by valid_alignments are compared (as multisets, with disorders) with an independent enumeration under the n*delta_empty cut, "
-             "for generated small continua and for constructed continua whose candidate count hits every buffer-growth boundary (10000, 15000, 22500, 33750).",
+             "for generated small continua, for constructed continua whose candidate count hits every buffer-growth boundary (10000, 15000, 22500, 33750), for costs landing exactly on the cut "
+             "(decided with rational arithmetic), for one-expensive-pair tuples and for in-place edit histories.",
         note="Three-valued membership within 1e-5 relative of the threshold (float32 vs float64).",
         ref="5/C07"),
     "C08": dict(
